@@ -19,8 +19,8 @@ PyatvModel/C18/Lemmas.lean `absRun_sound`, one induction over scripts).
                               a refused call leaves the active one untouched;
 * `stream_accepted_when_idle`, `second_stream_ok`
                               after any failed / cancelled / refused stream a new stream_file is accepted;
-* `orig_*_counterexample`     the scripts of the pinned tree BEFORE the four `fix:` commits violate
-                              the property (D13 a–d) — kept as documentation of the defects.
+* `orig_*_counterexample`     the scripts of the pinned tree BEFORE the five `fix:` commits violate
+                              the property (D13 a–e) — kept as documentation of the defects.
 -/
 namespace PyatvModel.Props.C18
 open PyatvModel.C18
@@ -213,7 +213,7 @@ theorem second_stream_ok (first : Prog) (hb : Bracketed true first = true) (env 
 example : Bracketed true (playUrl true) = true ∧
     (run (some (1, .fail)) (playUrl true) (start [])).2 ≠ .ok := by decide
 
-/-! ### the pinned tree before the repair (D13 a–d): the property is false of it -/
+/-! ### the pinned tree before the repair (D13 a–e): the property is false of it -/
 
 /-- D13a: second protocol fails ⇒ the first stays connected (and its task runs on). -/
 theorem orig_connect_counterexample :
@@ -237,7 +237,12 @@ theorem orig_stream_cleanup_counterexample :
     ¬ (∀ fault, (run fault (Orig.streamFile true true) (start [])).2 ≠ .ok →
         (run fault (Orig.streamFile true true) (start [])).1.ledger = []) := by
   intro h
-  exact absurd (h (some (4, .cancel)) (by decide)) (by decide)
+  exact absurd (h (some (7, .cancel)) (by decide)) (by decide)
+
+/-- D13e: the timing endpoint cannot be created ⇒ the control endpoint stays open. -/
+theorem orig_stream_endpoint_counterexample :
+    (run (some (2, .fail)) (Orig.streamFile true true) (start [])).2 = .exc .fail ∧
+    (run (some (2, .fail)) (Orig.streamFile true true) (start [])).1.ledger = [.ctrl] := by decide
 
 /-- D13c: local file, takeover refused ⇒ the web server keeps running. -/
 theorem orig_play_counterexample :
